@@ -34,6 +34,7 @@ struct Options {
     int min_bound = 0;              // first deviation bound to run (lets a harness iterate bounds across configurations)
     int max_bound = 1;              // largest deviation bound to attempt (iterated min_bound, min_bound+1, ..)
     bool unlock_points = false;     // mutex unlock is a preemption point too
+    bool cond_entry_points = true;  // entering a condition wait is a point (mutex still held, not yet a waiter): lost-wake-up window
     bool delay_bounded = false;     // false: switches at blocking points are free (preemption bounding, CHESS);
                                     // true: only 'lowest-id enabled thread next' is free, any other pick costs 1 (delay bounding)
     int workers = 16;
